@@ -77,6 +77,13 @@ partial def litOfWire (j : J) : Lit :=
       | _ => ("", .null))
   | _ => .null
 
+partial def selOfWire (j : J) : SelT :=
+  .mk (j.strD "key") (j.strD "field") (pairs' (j.arrD "args")) ((j.arrD "sub").map selOfWire)
+where pairs' (l : List J) : List (String × Lit) := l.map fun kv =>
+  match kv with
+  | .arr [.str n, v] => (n, litOfWire v)
+  | _ => ("", .null)
+
 def defaultOfWire (j : J) : Option PV :=
   match j.get? "default" with
   | some d@(.obj _) => some (pvOfWire (d.getD "v"))
@@ -142,6 +149,37 @@ def item (reg : Reg) (fuel : Nat) (j : J) : J :=
     let vt := Driver.tyOfJson (j.getD "vt")
     let lt := Driver.tyOfJson (j.getD "lt")
     .obj [("sub", .bool (isSubtype vt lt)), ("allowed", .bool (allowedUsage vt (j.boolD "vdef") lt (j.boolD "ldef")))]
+  | "tree" =>
+    let vardefs : List VarDef := (j.arrD "vardefs").map fun d =>
+      { name := d.strD "name", type := Driver.tyOfJson (d.getD "type"),
+        default := match d.get? "default" with | some l@(.obj _) => some (litOfWire l) | _ => none }
+    let variables := pairs jvOfWire j "variables"
+    let table : List (String × String × List InField) := (j.arrD "argtable").map fun e =>
+      (e.strD "ty", e.strD "field", (e.arrD "argdefs").map fieldOfWire)
+    let tbl : ArgTable := fun ty f => (table.find? fun e => e.1 == ty && e.2.1 == f).map (·.2.2)
+    let wtab : List (String × String × Nat × RVal) := (j.arrD "world").map fun e =>
+      let rv : RVal := match e.getD "r" with
+        | .str "leaf" => .leaf
+        | .str "raised" => .raised
+        | r@(.obj _) =>
+          match r.get? "obj", r.get? "objs" with
+          | some (.str t), _ => .obj t
+          | _, some (.arr items) => .objs (items.map fun i => match i with | .str t => some t | _ => none)
+          | _, _ => .null
+        | _ => .null
+      (e.strD "ty", e.strD "field", e.natD "depth", rv)
+    let w : TWorld := fun ty f p _ =>
+      match wtab.find? fun e => e.1 == ty && e.2.1 == f && e.2.2.1 == p.length with
+      | some e => e.2.2.2
+      | none => .null
+    let segs (p : RPath) : J := .arr (p.map fun s => match s with | .key k => .str k | .idx i => J.ofNat i)
+    let evs := executeTree reg fuel (j.natD "depthFuel" 32) vardefs variables tbl w (j.strD "root") ((j.arrD "sels").map selOfWire)
+    .obj [("events", .arr (evs.map fun ev =>
+      match ev with
+      | .call p ty f kw => .obj [("call", segs p), ("ty", .str ty), ("field", .str f), ("kw", kwToWire kw)]
+      | .fieldError p => .obj [("fieldError", segs p)]
+      | .requestError => .str "requestError"
+      | .crash => .str "crash"))]
   | "trace" =>
     let vardefs : List VarDef := (j.arrD "vardefs").map fun d =>
       { name := d.strD "name", type := Driver.tyOfJson (d.getD "type"),
